@@ -1,10 +1,12 @@
 \* C11 design model, exhaustive: actor connection through every handshake state,
 \* then up to MaxCmds commands of every row of the policy table x packet type x claimed fields x object.
-\* Substituted by the driver: SETS (row sets), FIXES (patches the modelled tree has), WVS (world variants), CMDS, RESP, EMIT.
+\* Substituted by the driver: SETS (row sets), FIXES (patches the modelled tree has), DEVS (named deviations: {} in every run of
+\* the check; Commands_show_*.cfg have one each), WVS (world variants), CMDS, RESP, EMIT.
 CONSTANTS
   Sets = @@SETS@@
   WVs = @@WVS@@
   Fixes = @@FIXES@@
+  Devs = @@DEVS@@
   MaxCmds = @@CMDS@@
   RespToo = @@RESP@@
   Emit = @@EMIT@@
